@@ -1252,18 +1252,18 @@ def section_equivalence(inp):
     secs = [2, 3, 1]
     spec = [(0, 1, 0.4), (1, 2, 0.6), (1, 3, 0.5)]          # (from, to, length) of the three pipes
 
-    def base(reverse=()):
+    def base(reverse=(), t_feed=320.):
         net = pp.create_empty_network(fluid="water")
         j = list(pp.create_junctions(net, 4, pn_bar=5., tfluid_k=320., height_m=[0., 4., 1., 6.]))
         # feed temperature = start temperature of the junctions: in sequential mode the hydraulic step runs on the start
         # temperatures, which are then the same physical field for every orientation
-        pp.create_ext_grid(net, j[0], p_bar=5., t_k=320., type="pt")
+        pp.create_ext_grid(net, j[0], p_bar=5., t_k=t_feed, type="pt")
         pp.create_sink(net, j[2], 0.8)
         pp.create_sink(net, j[3], 0.5)
         return net, j
 
-    def sectioned(labels, reverse=()):
-        net, j = base()
+    def sectioned(labels, reverse=(), t_feed=320.):
+        net, j = base(t_feed=t_feed)
         for k_, (a, b, ln) in enumerate(spec):
             fa, fb = (j[b], j[a]) if k_ in reverse else (j[a], j[b])
             pp.create_pipe_from_parameters(net, fa, fb, ln, 100., k_mm=0.2, u_w_per_m2k=20., sections=secs[k_], text_k=280., index=labels[k_])
@@ -1290,7 +1290,8 @@ def section_equivalence(inp):
     try:
         pp.pipeflow(ref, mode="sequential")
     except Exception as e:  # noqa
-        return {"ok": False, "cases": 1, "witness": {"observed": "the pipes-in-series reference network: %s: %s" % (type(e).__name__, str(e)[:160])}}
+        return {"checks": {"sectioned-pipe-equals-pipes-in-series-for-every-labelling-and-orientation": {
+            "ok": False, "cases": 1, "witness": {"observed": "the pipes-in-series reference network: %s: %s" % (type(e).__name__, str(e)[:160])}}}}
     for labels in itertools.permutations([0, 1, 2]):
         for use_numba in (False, True):
             for reverse in ((), (1,), (0, 2)):
@@ -1313,7 +1314,27 @@ def section_equivalence(inp):
                     if bad and witness is None:
                         witness = {"pipe_labels_in_creation_order": labels, "pipes_drawn_against_the_flow": reverse, "use_numba": use_numba,
                                    "pipe": k_, "sections": secs[k_], "differs": {q: (float(got[q]), float(want[q])) for q in bad}}
-    return {"ok": witness is None, "cases": cases, "witness": witness}
+    # orientation in the purely hydraulic calculation when the feed temperature differs from the start temperature of the
+    # junctions (judged separately: finding F35)
+    o_cases, o_witness = 0, None
+    for reverse in ((1,), (0, 2), (0, 1, 2)):
+        o_cases += 1
+        try:
+            a = sectioned((0, 1, 2), (), t_feed=360.)
+            b = sectioned((0, 1, 2), reverse, t_feed=360.)
+            pp.pipeflow(a, mode="hydraulics")
+            pp.pipeflow(b, mode="hydraulics")
+            d = float(np.max(np.abs(a.res_junction.p_bar.values - b.res_junction.p_bar.values)))
+            if d > 1e-7 and o_witness is None:
+                o_witness = {"pipes_drawn_against_the_flow": reverse, "max pressure difference [bar]": d,
+                             "forward": a.res_junction.p_bar.round(7).tolist(), "reversed": b.res_junction.p_bar.round(7).tolist()}
+        except Exception as e:  # noqa
+            if o_witness is None:
+                o_witness = {"pipes_drawn_against_the_flow": reverse, "observed": "%s: %s" % (type(e).__name__, str(e)[:120])}
+    return {"checks": {"sectioned-pipe-equals-pipes-in-series-for-every-labelling-and-orientation":
+                       {"ok": witness is None, "cases": cases, "witness": witness},
+                       "orientation/hydraulic-mode-with-feed-temperature-different-from-start-temperature":
+                       {"ok": o_witness is None, "cases": o_cases, "witness": o_witness}}}
 
 
 def engine_equivalence(inp):
